@@ -16,8 +16,9 @@ struct LzPlan { depth: u8, uses: u8, how: u8, copies: u8 }
 
 /// the different handle types only share `TrX`'s per-type methods; this macro applies a plan to one of them
 macro_rules! lz_apply {
-    ($feed:ident, $down:ident, $crea:ident, $T:ty, $Tr:ty, $h:expr, $plan:expr, $b:expr, $got:expr) => {{
+    ($feed:ident, $down:ident, $crea:ident, $rep:ident, $T:ty, $Tr:ty, $h:expr, $plan:expr, $b:expr, $got:expr, $reps:expr) => {{
         let p: LzPlan = $plan;
+        $reps.push(<$Tr>::$rep($h, p.depth));
         <$Tr>::$crea($h, p.depth, p.copies);
         for u in 0..p.uses {
             match p.how {
@@ -44,20 +45,27 @@ impl<T: Elem + SatisfyTraits<Tr>, M: MX, Tr: TrX + ?Sized> World<T, M, Tr> {
         let before = elem::with_reg(|r| (r.clones + r.zst_clones, r.drops + r.zst_drops));
         let mut got: Vec<u16> = Vec::with_capacity(8);
         let g = &mut got;
+        let mut reps: Vec<(usize, std::any::TypeId, u16)> = Vec::with_capacity(2);
+        let rp = &mut reps;
         // (source id, what happens to the source in A afterwards)
         let src_id = match ma[if src == 2 { len - 1 } else { j }] { Mv::Id(i) => i, Mv::CloneOf(p) => p };
         let r = guarded(|| match src {
-            0 => { let e = a.at(j); lz_apply!(lz_element, lzd_element, lzc_element, T, Tr, &*e, plan, b, g); }
-            1 => { let e = a.at_mut(j); lz_apply!(lz_element, lzd_element, lzc_element, T, Tr, &*e, plan, b, g); }
-            2 => { let h = a.pop().unwrap(); lz_apply!(lz_pop, lzd_pop, lzc_pop, T, Tr, &h, plan, b, g); b.push(h); }
-            3 => { let h = a.remove(j); lz_apply!(lz_remove, lzd_remove, lzc_remove, T, Tr, &h, plan, b, g); b.push(h); }
-            4 => { let h = a.swap_remove(j); lz_apply!(lz_swap_remove, lzd_swap_remove, lzc_swap_remove, T, Tr, &h, plan, b, g); b.push(h); }
-            _ => { let mut d = a.drain(j..j + 1); let e = d.next().unwrap(); lz_apply!(lz_element, lzd_element, lzc_element, T, Tr, &e, plan, b, g); b.push(e); drop(d); }
+            0 => { let e = a.at(j); lz_apply!(lz_element, lzd_element, lzc_element, lzr_element, T, Tr, &*e, plan, b, g, rp); }
+            1 => { let e = a.at_mut(j); lz_apply!(lz_element, lzd_element, lzc_element, lzr_element, T, Tr, &*e, plan, b, g, rp); }
+            2 => { let h = a.pop().unwrap(); lz_apply!(lz_pop, lzd_pop, lzc_pop, lzr_pop, T, Tr, &h, plan, b, g, rp); b.push(h); }
+            3 => { let h = a.remove(j); lz_apply!(lz_remove, lzd_remove, lzc_remove, lzr_remove, T, Tr, &h, plan, b, g, rp); b.push(h); }
+            4 => { let h = a.swap_remove(j); lz_apply!(lz_swap_remove, lzd_swap_remove, lzc_swap_remove, lzr_swap_remove, T, Tr, &h, plan, b, g, rp); b.push(h); }
+            _ => { let mut d = a.drain(j..j + 1); let e = d.next().unwrap(); lz_apply!(lz_element, lzd_element, lzc_element, lzr_element, T, Tr, &e, plan, b, g, rp); b.push(e); drop(d); }
         });
         match r {
             Err(Caught::Injected) => { out.faulted = true; return; }
             Err(Caught::Panic(m)) => { out.fail(Class::Vec, "unexpected-panic", format!("lazy clone protocol panicked: {m}")); out.faulted = true; return; }
             Ok(()) => {}
+        }
+        for (sz, tid, bid) in &reps {
+            if *sz != std::mem::size_of::<T>() { out.fail(Class::Type, "handle-size", format!("a depth-{depth} lazy clone reports size {sz} for a {}-byte element", std::mem::size_of::<T>())); }
+            if *tid != std::any::TypeId::of::<T>() { out.fail(Class::Type, "handle-typeid", "a lazy clone reports a wrong value_typeid".into()); }
+            if T::SIZE != 0 && *bid != src_id { out.fail(Class::Vec, "handle-bytes", format!("as_bytes of a lazy clone shows id {bid}, source is {src_id}")); }
         }
         let after = elem::with_reg(|r| (r.clones + r.zst_clones, r.drops + r.zst_drops));
         let clones = after.0 - before.0;
